@@ -414,3 +414,53 @@ def dot_reach(s: str, which: int) -> bool:
     t = lex_action(d, 'DQUOTE_STRING', s)
     val = PAR[d].dquote_string(_parsers[d], [t.value])
     return _dot_join(d, 'dquote_string', val) == ['h1', 'h2', s[1:len(s) - 1]]
+
+
+# ---- what the real parse_sql does to the text BEFORE lexing: a quoted literal / quoted name in the statement reaches the lexer unchanged -------------
+class _RecLexer:
+    def __init__(self, rec):
+        self.rec = rec
+
+    def tokenize(self, text):
+        self.rec.append(text)
+        return iter(())
+
+
+class _NullParser:
+    def parse(self, tokens):
+        from mindsdb_sql.parser.ast.select.select import Select
+        return Select(targets=[])
+
+
+def _prelex(sql):
+    import mindsdb_sql
+    rec = []
+    mindsdb_sql.get_lexer_parser = lambda d: (_RecLexer(rec), _NullParser())
+    mindsdb_sql.parse_sql(sql, 'mindsdb')
+    return rec[0]
+
+
+def _prelex_sql(body, q, tail):
+    quote = ("'", '"', '`')[q]
+    return 'SELECT ' + quote + body + quote + ('', ';', ' ;\n', '\n')[tail]
+
+
+def prelex_quoted(body: str, q: int, tail: int) -> bool:
+    """
+    pre: len(body) <= 4
+    pre: 0 <= q <= 2
+    pre: 0 <= tail <= 3
+    post: _
+    """
+    quote = ("'", '"', '`')[q]
+    return _prelex(_prelex_sql(body, q, tail)) == 'SELECT ' + quote + body + quote
+
+
+def prelex_quoted_reach(body: str, q: int, tail: int) -> bool:
+    """
+    pre: len(body) <= 4
+    pre: 0 <= q <= 2
+    pre: 0 <= tail <= 3
+    post: False
+    """
+    return len(_prelex(_prelex_sql(body, q, tail))) >= 0
